@@ -10,7 +10,7 @@ from .core import (Val, Unsupported, TPoison, T_EMPTY, T_LAMBDA, T_CLASS, T_BUIL
 
 SPEC_FORMS = {"old", "pre", "forall", "exists", "implies", "iff", "forall_obj", "forall_int", "exists_int",
               "let", "ite", "seq_eq", "is_none", "unchanged", "typeis", "elems", "idx_of", "count_int",
-              "forall_str", "fresh_obj", "unchanged_except", "to_int", "to_real", "forall_int_t"}
+              "forall_str", "fresh_obj", "unchanged_except", "to_int", "to_real", "forall_int_t", "sum_of", "sum_upto"}
 
 
 class TKwargsT(TSpecial):
@@ -18,6 +18,47 @@ class TKwargsT(TSpecial):
 
 
 T_KWARGS = TKwargsT("Kwargs")
+
+
+def abstract_over(term, kc):
+    """replace the maximal sub-terms of `term` that do not contain kc (and are not numerals) by placeholders.
+    returns (template string, [argument terms]) or (None, None) if a quantifier mentions kc"""
+    has = {}
+
+    def contains(e):
+        i = e.get_id()
+        if i in has:
+            return has[i]
+        if z3.is_quantifier(e):
+            r = contains(e.body())
+        elif z3.is_var(e):
+            r = False
+        else:
+            r = e.eq(kc) or any(contains(c) for c in e.children())
+        has[i] = r
+        return r
+    args, index = [], {}
+    fail = [False]
+
+    def go(e):
+        if not contains(e):
+            if z3.is_int_value(e) or z3.is_rational_value(e) or z3.is_true(e) or z3.is_false(e):
+                return e.sexpr()
+            i = e.get_id()
+            if i not in index:
+                index[i] = len(args)
+                args.append(e)
+            return "?%d:%s" % (index[i], e.sort())
+        if z3.is_quantifier(e):
+            fail[0] = True
+            return "Q"
+        if e.eq(kc):
+            return "K"
+        return "(%s %s)" % (e.decl().name() + "/" + str(e.decl().kind()), " ".join(go(c) for c in e.children()))
+    t = go(term)
+    if fail[0]:
+        return None, None
+    return t, args
 
 
 class CallMixin:
@@ -405,6 +446,24 @@ class CallMixin:
             v = self.ev(a[0], st)
             lam = self.ev(a[1], st)
             return self.apply_fn(lam, [v], st, node)
+        if name in ("sum_of", "sum_upto"):
+            coll = self.ev(a[0], st)
+            lam = self.ev(a[1], st)
+            if coll.ty.kind == "EmptyList":
+                return Val(TInt, z3.IntVal(0))
+            n, g0, _ = self.as_view(coll, st, node)
+            g = lambda i: self.apply_fn(lam, [g0(i)], st, node)
+            et = self.elem_type_of_view(n, g, st)
+            rt = TReal if et.kind == "Real" else TInt
+            upto = n if name == "sum_of" else self.coerce(self.ev(a[2], st), TInt).z
+            if self.mode == "UNROLL":
+                acc = z3.RealVal(0) if rt == TReal else z3.IntVal(0)
+                for i in range(self.bound):
+                    ii = z3.IntVal(i)
+                    acc = z3.If(z3.And(ii < n, ii < upto), acc + self.coerce(g(ii), rt, node).z, acc)
+                return Val(rt, acc)
+            ps, bvs = self.prefix_sum_fn(n, g, rt, st, node)
+            return Val(rt, ps(*bvs, upto))
         if name == "to_int":
             v = self.ev(a[0], st)
             return Val(TInt, z3.ToInt(self.coerce(v, TReal, node).z))
@@ -773,22 +832,60 @@ class CallMixin:
                 ii = z3.IntVal(i)
                 acc = z3.If(ii < n, acc + self.coerce(g(ii), rt, node).z, acc)
             return Val(rt, acc)
-        # prefix-sum function, axiomatised by its unfolding (DESIGN 2.4)
+        ps, bvs = self.prefix_sum_fn(n, g, rt, st, node)
+        return Val(rt, ps(*bvs, n))
+
+    def prefix_sum_fn(self, n, g, rt, st, node=None):
+        """prefix-sum function of a sequence, axiomatised by its unfolding (DESIGN 2.4).
+
+        The summand at a canonical index k is abstracted over its maximal k-free sub-terms (heap arrays, the list,
+        captured values): psum_T(args..., k) where T is the resulting template.  A sum in the code and the same sum
+        in a contract, or the same sum for a bound object and for a concrete one, are then applications of one
+        function symbol to arguments that are equal modulo the theory."""
         self.trusted.add("sum(L) = left fold of + from 0 (prefix-sum function with one-step unfolding)")
-        ps = z3.Function("psum!%d" % next(self.counter), *([b.sort() for b, _ in self.binders] + [z3.IntSort(), self.S.sort(rt)]))
-        bvs = [b for b, _ in self.binders]
-        zero = z3.RealVal(0) if rt == TReal else z3.IntVal(0)
-        self.assume(ps(*bvs, z3.IntVal(0)) == zero, st)
-        k = self.qvar()
-        self.binders.append((k, z3.And(k >= 0, k < n)))
+        depth = getattr(self, "_sum_depth", 0)
+        kc = z3.Int("k!sumcanon%d" % depth)
+        self._sum_depth = depth + 1
+        self.binders.append((kc, z3.And(kc >= 0, kc < n)))
+        self.spec += 1
         try:
-            term = self.coerce(g(k), rt, node).z
+            term_c = self.coerce(g(kc), rt, node).z
         finally:
+            self.spec -= 1
             self.binders.pop()
-        self.assume(z3.ForAll([k], z3.Implies(z3.And(k >= 0, k < n), ps(*bvs, k + 1) == ps(*bvs, k) + term),
-                              patterns=[ps(*bvs, k + 1)]), st)
-        self.last_sum = (ps, n)
-        return Val(rt, ps(*bvs, n), py=("psum", ps, n, g))
+            self._sum_depth = depth
+        template, args = abstract_over(term_c, kc)
+        rs = self.S.sort(rt)
+        if template is None:
+            # not abstractable (quantifier over the index): one function per term, parameterised by the binders
+            args = [bv for bv, _ in self.binders]
+            key = ("opaque", term_c.get_id(), rt.kind)
+        else:
+            key = (template, rt.kind, tuple(str(a.sort()) for a in args))
+        if key not in self.sum_cache:
+            name = "psum!%d" % len(self.sum_cache)
+            self.sum_cache[key] = z3.Function(name, *([a.sort() for a in args] + [z3.IntSort(), rs]))
+        ps = self.sum_cache[key]
+        site = (key, tuple(a.get_id() for a in args))
+        if site not in self.sum_sites:
+            self.sum_sites.add(site)
+            zero = z3.RealVal(0) if rt == TReal else z3.IntVal(0)
+            body0 = ps(*args, z3.IntVal(0)) == zero
+            try:
+                step = z3.ForAll([kc], z3.Implies(kc >= 0, ps(*args, kc + 1) == ps(*args, kc) + term_c),
+                                 patterns=[ps(*args, kc + 1)])
+            except z3.Z3Exception:
+                step = z3.ForAll([kc], z3.Implies(kc >= 0, ps(*args, kc + 1) == ps(*args, kc) + term_c))
+            g0 = z3.substitute(term_c, (kc, z3.IntVal(0)))
+            g1 = z3.substitute(term_c, (kc, z3.IntVal(1)))
+            unf = z3.And(ps(*args, z3.IntVal(1)) == zero + g0, ps(*args, z3.IntVal(2)) == zero + g0 + g1)
+            fact = z3.And(body0, step, unf)
+            bvs = [bv for bv, _ in self.binders]
+            if bvs:
+                fact = z3.ForAll(bvs, fact)
+            if not self.dry:
+                self.assumptions.append(fact)
+        return ps, args
 
     def bi_sorted(self, args, kwargs, st, node):
         src = self.realize(args[0], st, node)
